@@ -594,4 +594,304 @@ Section TableRefine.
     destruct (msub_perm acc s (occupants kv t1) (Permutation_sym P1)) as (r' & Em & Pr). rewrite Em.
     cbn [andb]. apply meq_perm. symmetry. exact Pr.
   Qed.
+  (* ---------------------------------------------------------------------------------------- *)
+  (* (7) get_many_mut                                                                           *)
+  (* ---------------------------------------------------------------------------------------- *)
+  (* the contents split into the elements of a duplicate-free set of live buckets and the rest *)
+  Lemma occ_split t I : SafeWF B kv t -> NoDup I ->
+    (forall i, In i I -> i < nb kv t /\ is_full (byte kv t i) = true) ->
+    Permutation (occupants kv t) (elems t I ++ elems t (without I (full_list t))).
+  Proof.
+    intros Hs Hnd Hall. rewrite <- (elems_full B HW t Hs), <- elems_app.
+    unfold elems. apply Permutation_flat_map. apply split_perm; [exact Hnd|apply full_list_NoDup|].
+    intros x Hx. apply full_list_In. exact (Hall x Hx).
+  Qed.
+
+  (* same control bytes, same ids in the same buckets: still well-formed *)
+  Lemma wf_same_ctrl t t1 : WF B kv h t -> SafeWF B kv t1 -> mask t1 = mask t -> ctrl t1 = ctrl t ->
+    (forall j x, slot kv t1 j = Some x -> exists e, slot kv t j = Some e /\ k_id x = k_id e) ->
+    WF B kv h t1.
+  Proof.
+    intros (Hs & HT & HR) Hs1 Em Ec Hsl.
+    assert (Enb : nb kv t1 = nb kv t) by (unfold nb, buckets; rewrite Em; reflexivity).
+    split; [exact Hs1|]. split.
+    - intros j x hv Hj Hx Hhx. destruct (Hsl j x Hx) as (e & He & Hk).
+      unfold byte. rewrite Ec. apply (HT j e hv); [lia|exact He|]. unfold hasher in *. rewrite <- Hk. exact Hhx.
+    - intros j x hv Hj Hx Hhx. destruct (Hsl j x Hx) as (e & He & Hk).
+      rewrite (reach_ok_ext B kv t t1 hv j Em Ec).
+      apply (HR j e hv); [lia|exact He|]. unfold hasher in *. rewrite <- Hk. exact Hhx.
+  Qed.
+
+  Lemma unbump add e : (0 <= v_val e < 2 ^ 64)%Z ->
+    mkKV (k_id (bump add e)) (k_stamp (bump add e)) (wsub 64 (v_val (bump add e)) add) = e.
+  Proof.
+    intros Hr. destruct e as [a b c]. unfold bump. cbn [k_id k_stamp v_val] in *. f_equal.
+    unfold wsub, wadd, wrap. rewrite Zminus_mod_idemp_l.
+    replace (c + add - add)%Z with c by lia. apply Z.mod_small. exact Hr.
+  Qed.
+
+  Lemma opts_ok_spec t t' s add : TInv t s -> (forall e, In e s -> (0 <= v_val e < 2 ^ 64)%Z) ->
+    forall reqs l os, Forall2 (Resolved B hash_of t) reqs l -> Forall3 (Handed t t' add) reqs l os ->
+    opts_ok hash_of s reqs os add = Some (elems t (somes l)).
+  Proof.
+    intros HI Hrange. induction reqs as [|[hk p] reqs IH]; intros [|oi l] [|o os] HF H3;
+      cbn [Forall3] in H3; try contradiction; try (inversion HF; fail).
+    - reflexivity.
+    - inversion HF as [|? ? ? ? Hres HF']; subst. destruct H3 as (Hh & H3).
+      specialize (IH l os HF' H3).
+      destruct oi as [i|], o as [e'|]; cbn [Handed] in Hh; try contradiction.
+      + destruct Hh as (e & He & HP & -> & _). cbn [opts_ok somes]. cbn [snd] in HP.
+        rewrite (unbump add e (Hrange e (slot_in t s i e HI He))), HP, IH.
+        rewrite (elems_cons t i (somes l) e He). reflexivity.
+      + cbn [opts_ok somes]. destruct Hres as (hv & Hh' & Ef). cbn [fst snd] in Hh', Ef.
+        destruct (tfind_ref t s hk hv p HI Hh') as (r & Ef' & Hr). rewrite Ef in Ef'. injection Ef' as <-.
+        rewrite Hr. exact IH.
+  Qed.
+
+  Lemma ref_tget_many_mut t s reqs add t' o evs : TInv t s -> top_pre hash_of s (TGetManyMut reqs add) ->
+    STEP t (TGetManyMut reqs add) = Ok (t', o, evs) -> TRefines s (TGetManyMut reqs add) t' o.
+  Proof.
+    intros HI Hpre E. cbn [top_pre] in Hpre. pose proof HI as (HWF & HA & P). pose proof HWF as (Hs & _).
+    pose proof E as E0. cbn [table_step] in E.
+    destruct (many_find_ok B HW HB hash_of t Hs reqs) as (r & Em & Hr). rewrite Em in E. cbn [bind] in E.
+    destruct r as [l|].
+    2:{ exfalso. destruct Hr as (req & _ & Hn). destruct (Htot (fst req)) as (x & Hx). congruence. }
+    destruct (has_dup l) eqn:Ed.
+    - (* "duplicate keys found": two requests accept the same stored element *)
+      injection E as <- <- <-. finish HWF HA. rewrite (meq_perm _ _ P). cbn [andb].
+      destruct (proj1 (has_dup_true_iff l) Ed) as (a & b & i & Hab & Ha & Hb).
+      destruct (Forall2_nth_error _ reqs l a (Some i) Hr Ha) as (ra & Hra & Hresa).
+      destruct (Forall2_nth_error _ reqs l b (Some i) Hr Hb) as (rb & Hrb & Hresb).
+      destruct (Resolved_found B HW HB hash_of t ra (Some i) Hs Hresa) as (_ & _ & e & He & _ & HPa).
+      destruct (Resolved_found B HW HB hash_of t rb (Some i) Hs Hresb) as (_ & _ & e2 & He2 & _ & HPb).
+      rewrite He in He2. injection He2 as <-.
+      apply existsb_exists. exists e. split; [exact (slot_in t s i e HI He)|].
+      apply Nat.leb_le.
+      exact (filter_length_ge2 (fun r => tpred_holds (snd r) e) reqs a b ra rb Hab Hra Hrb HPa HPb).
+    - pose proof (has_dup_NoDup l Ed) as Hnd.
+      pose proof (resolved_live B HW HB hash_of t reqs l Hs Hr) as Hlive.
+      destruct (bump_all_spec B tsize talign HL hash_of add l t Hs Hnd Hlive)
+        as (t1 & os1 & Eb & Hs1 & Em1 & Ec1 & _ & _ & Hout & Hin & _).
+      rewrite Eb in E. cbn [bind] in E. injection E as <- <- <-.
+      destruct (get_many_mut_distinct B HW HB tsize talign HL needs_drop hash_of alloc_refuses
+                  t reqs add t1 os1 [] Hs HA E0) as (l' & El' & _ & _ & _ & H3 & _).
+      rewrite Em in El'. injection El' as <-.
+      assert (Enb1 : nb kv t1 = nb kv t) by (unfold nb, buckets; rewrite Em1; reflexivity).
+      assert (HWF1 : WF B kv h t1).
+      { apply (wf_same_ctrl t t1 HWF Hs1 Em1 Ec1). intros j x Hx.
+        destruct (in_dec Nat.eq_dec j (somes l)) as [Hj|Hj].
+        - rewrite (Hin j Hj) in Hx. destruct (slot kv t j) as [e|]; [|discriminate Hx].
+          cbn [option_map] in Hx. injection Hx as <-. exists e. split; reflexivity.
+        - rewrite (Hout j Hj) in Hx. exists x. split; [exact Hx|reflexivity]. }
+      finish HWF1 (own_same' t t1 Em1 HA).
+      rewrite (opts_ok_spec t t1 s add HI Hpre reqs l os1 Hr H3).
+      set (I := somes l) in *.
+      assert (Hall : forall i, In i I -> i < nb kv t /\ is_full (byte kv t i) = true).
+      { intros i Hi. destruct (Hlive i Hi) as (Hm & Hlt & e & He). split; [exact Hlt|].
+        exact (slot_full B t i e Hs Hm Hlt He). }
+      assert (Hall1 : forall i, In i I -> i < nb kv t1 /\ is_full (byte kv t1 i) = true).
+      { intros i Hi. destruct (Hall i Hi) as (Hlt & Hf). split; [lia|]. unfold byte in *. rewrite Ec1. exact Hf. }
+      pose proof (occ_split t I Hs Hnd Hall) as Pt.
+      pose proof (occ_split t1 I Hs1 Hnd Hall1) as Pt1.
+      rewrite (full_list_same t t1 Em1 Ec1) in Pt1.
+      rewrite (elems_map t t1 (bump add) I Hin) in Pt1.
+      rewrite (elems_ext t t1 (without I (full_list t))) in Pt1
+        by (intros j Hj; apply Hout; apply without_In in Hj; tauto).
+      destruct (msub_perm (elems t I) s _ (Permutation_trans (Permutation_sym P) Pt)) as (rest & Ems & Prest).
+      rewrite Ems. apply meq_perm. etransitivity; [exact Pt1|].
+      apply Permutation_app_head. symmetry. exact Prest.
+  Qed.
+
+  (* ---------------------------------------------------------------------------------------- *)
+  (* (8) iter_hash                                                                              *)
+  (* ---------------------------------------------------------------------------------------- *)
+  Lemma ref_titer_hash t s hk t' o evs : TInv t s ->
+    STEP t (TIterHash hk) = Ok (t', o, evs) -> TRefines s (TIterHash hk) t' o.
+  Proof.
+    intros HI E. start_h E hk hv Hh. pose proof HI as (HWF & HA & P). pose proof HWF as (Hs & HT & HR).
+    destruct (IterHashFacts.iter_hash_total B HW HB t hv Hs) as (idx & Ei & Hnd & Hall).
+    rewrite Ei in E. cbn [bind] in E.
+    destruct (Nat.eq_dec (mask t) 0) as [Hm|Hm].
+    - (* the static singleton: nothing stored, nothing yielded *)
+      assert (Eidx : idx = []).
+      { destruct idx as [|i r]; [reflexivity|]. exfalso. exact (proj1 (Hall i (or_introl eq_refl)) Hm). }
+      subst idx. cbn [elems_at fold_right bind] in E. injection E as <- <- <-. finish HWF HA.
+      assert (Es : s = []).
+      { rewrite (safe_singleton B kv t Hs Hm), new_table_occupants in P. apply Permutation_nil. exact P. }
+      subst s. rewrite (meq_perm _ _ P). reflexivity.
+    - assert (Hall' : forall i, In i idx -> i < nb kv t /\ is_full (byte kv t i) = true).
+      { intros i Hi. exact (proj2 (Hall i Hi)). }
+      rewrite (elems_at_spec B t Hs Hm idx Hall') in E. cbn [bind] in E. injection E as <- <- <-.
+      finish HWF HA. rewrite (meq_perm _ _ P), andb_true_r.
+      change (flat_map (fun i : nat => SafeAllocClear.opt_list (nth i (slots t) None)) idx) with (elems t idx).
+      pose proof (occ_split t idx Hs Hnd Hall') as Pt.
+      destruct (msub_perm (elems t idx) s _ (Permutation_trans (Permutation_sym P) Pt)) as (rest & Ems & Prest).
+      rewrite Ems. apply negb_true_iff. apply existsb_false_iff. intros e Hin.
+      destruct (same_hash hash_of (k_id e) hk) eqn:C; [exfalso|reflexivity].
+      unfold same_hash in C. rewrite Hh in C. destruct (hash_of (k_id e)) as [x|] eqn:Ex; [|discriminate C].
+      apply Z.eqb_eq in C. subst x.
+      apply (Permutation_in _ Prest) in Hin. apply elems_In in Hin. destruct Hin as (j & Hj & He).
+      apply without_In in Hj. destruct Hj as (Hjf & Hjn). apply full_list_In in Hjf. destruct Hjf as (Hlt & _).
+      apply Hjn.
+      exact (IterHashFacts.iter_hash_complete B HW HB t hv j Hs Hm Hlt (HT j e hv Hlt He Ex) (HR j e hv Hlt He Ex)
+               idx Ei).
+  Qed.
+
+  (* ---------------------------------------------------------------------------------------- *)
+  (* THE REFINEMENT THEOREM, every operation                                                    *)
+  (* ---------------------------------------------------------------------------------------- *)
+  Theorem table_step_refines_inv t s op t' o evs :
+    top_args_ok op -> top_pre hash_of s op -> TInv t s -> STEP t op = Ok (t', o, evs) -> TRefines s op t' o.
+  Proof.
+    intros Hargs Hpre HI E. destruct op; cbn [top_args_ok] in Hargs.
+    - exact (ref_twith_capacity t s n t' o evs HI Hargs E).
+    - exact (ref_tfind t s hk p t' o evs HI E).
+    - exact (ref_tfind_mut t s hk p newv t' o evs HI E).
+    - exact (ref_tfind_entry_remove t s hk p t' o evs HI E).
+    - exact (ref_tremove_reinsert t s hk p stamp v t' o evs HI Hpre E).
+    - exact (ref_tentry_insert t s k stamp v t' o evs HI E).
+    - exact (ref_tentry_or_insert t s k stamp v t' o evs HI E).
+    - exact (ref_tentry_drop t s k t' o evs HI E).
+    - exact (ref_tinsert_unique t s k stamp v t' o evs HI E).
+    - exact (ref_tretain t s keep bump t' o evs HI E).
+    - exact (ref_textract_if t s sel n t' o evs HI E).
+    - exact (ref_tdrain t s n t' o evs HI E).
+    - exact (ref_tclear t s t' o evs HI E).
+    - exact (ref_treserve t s n t' o evs HI Hargs E).
+    - exact (ref_ttry_reserve t s n t' o evs HI Hargs E).
+    - exact (ref_tshrink_to t s n t' o evs HI Hargs E).
+    - exact (ref_tshrink_to_fit t s t' o evs HI E).
+    - exact (ref_tget_many_mut t s reqs add t' o evs HI Hpre E).
+    - exact (ref_titer_hash t s hk t' o evs HI E).
+    - exact (ref_titer t s t' o evs HI E).
+    - exact (ref_tlen t s t' o evs HI E).
+    - exact (ref_tcapacity t s t' o evs HI E).
+    - exact (ref_tallocation_size t s t' o evs HI E).
+    - exact (ref_tdrop t s t' o evs HI E).
+  Qed.
 End TableRefine.
+
+(* ------------------------------------------------------------------------------------------ *)
+(* the theorem in closed form                                                                   *)
+(* ------------------------------------------------------------------------------------------ *)
+(* Every operation is covered.  top_pre is `True` except for TRemoveReinsert and TGetManyMut. *)
+Theorem table_step_refines :
+  forall B tsize talign needs_drop hash_of alloc_refuses (t : table kv) (s : mset) (op : tbl_op) t' o evs,
+  WidthOK B -> BackendSpec B -> LayoutOK tsize talign -> TotalHash hash_of -> top_args_ok op ->
+  top_pre hash_of s op ->
+  WF B kv (fun e => hash_of (k_id e)) t -> TOwn B kv tsize talign t -> Permutation (occupants kv t) s ->
+  table_step B tsize talign needs_drop true hash_of alloc_refuses t op = Ok (t', o, evs) ->
+  o <> TOutUnwind /\ tspec_accepts hash_of s op o (occupants kv t') = true /\
+  WF B kv (fun e => hash_of (k_id e)) t' /\ TOwn B kv tsize talign t'.
+Proof.
+  intros B tsize talign needs_drop hash_of alloc_refuses t s op t' o evs HW HB HL Htot Hargs Hpre HWF HA P E.
+  exact (table_step_refines_inv B HW HB tsize talign HL needs_drop hash_of Htot alloc_refuses t s op t' o evs
+           Hargs Hpre (conj HWF (conj HA P)) E).
+Qed.
+
+(* ... and literally as it was asked, for the operations without side condition *)
+Definition tcovered (op : tbl_op) : Prop :=
+  match op with TRemoveReinsert _ _ _ _ | TGetManyMut _ _ => False | _ => True end.
+
+Lemma tcovered_pre hash_of s op : tcovered op -> top_pre hash_of s op.
+Proof. destruct op; cbn; intros H; try exact I; contradiction. Qed.
+
+Corollary table_step_refines_covered :
+  forall B tsize talign needs_drop hash_of alloc_refuses (t : table kv) (s : mset) (op : tbl_op) t' o evs,
+  WidthOK B -> BackendSpec B -> LayoutOK tsize talign -> TotalHash hash_of -> top_args_ok op -> tcovered op ->
+  WF B kv (fun e => hash_of (k_id e)) t -> TOwn B kv tsize talign t -> Permutation (occupants kv t) s ->
+  table_step B tsize talign needs_drop true hash_of alloc_refuses t op = Ok (t', o, evs) ->
+  o <> TOutUnwind /\ tspec_accepts hash_of s op o (occupants kv t') = true /\
+  WF B kv (fun e => hash_of (k_id e)) t' /\ TOwn B kv tsize talign t'.
+Proof.
+  intros B tsize talign needs_drop hash_of alloc_refuses t s op t' o evs HW HB HL Htot Hargs Hcov.
+  apply table_step_refines; try assumption. apply tcovered_pre. exact Hcov.
+Qed.
+
+(* TRemoveReinsert with the lawful closure `id == hk` needs no side condition *)
+Corollary remove_reinsert_by_id_refines :
+  forall B tsize talign needs_drop hash_of alloc_refuses (t : table kv) (s : mset) hk st v t' o evs,
+  WidthOK B -> BackendSpec B -> LayoutOK tsize talign -> TotalHash hash_of ->
+  WF B kv (fun e => hash_of (k_id e)) t -> TOwn B kv tsize talign t -> Permutation (occupants kv t) s ->
+  table_step B tsize talign needs_drop true hash_of alloc_refuses t (TRemoveReinsert hk (PId hk) st v)
+    = Ok (t', o, evs) ->
+  o <> TOutUnwind /\ tspec_accepts hash_of s (TRemoveReinsert hk (PId hk) st v) o (occupants kv t') = true /\
+  WF B kv (fun e => hash_of (k_id e)) t' /\ TOwn B kv tsize talign t'.
+Proof.
+  intros B tsize talign needs_drop hash_of alloc_refuses t s hk st v t' o evs HW HB HL Htot.
+  apply table_step_refines; try assumption; [exact I|].
+  intros e _ HP. cbn [tpred_holds] in HP. apply Z.eqb_eq in HP. rewrite HP. reflexivity.
+Qed.
+
+Print Assumptions table_step_refines.
+Print Assumptions table_step_refines_covered.
+Print Assumptions remove_reinsert_by_id_refines.
+
+(* ------------------------------------------------------------------------------------------ *)
+(* FINDINGS: the two side conditions cannot be dropped                                          *)
+(* ------------------------------------------------------------------------------------------ *)
+Fixpoint trun (B : backend) (hash_of : Z -> option Z) (t : table kv) (ops : list tbl_op)
+  : res (list tout * table kv) :=
+  match ops with
+  | [] => Ok ([], t)
+  | op :: r => '(t1, o, _) <- table_step B 24 8 false true hash_of false t op ;;
+               '(os, t2) <- trun B hash_of t1 r ;; Ok (o :: os, t2)
+  end.
+
+Definition id_hash (k : Z) : option Z := Some k.
+
+(* FINDING 1 (statement / harness, not a memory-safety issue): TRemoveReinsert with a closure that
+   accepts an element of ANOTHER hash.  Identity hash; key A has tag 2 and home bucket 0, key B has
+   tag 3 and home bucket 1 (the tags differ in the lowest bit only and B's control byte sits right
+   above A's).  `find_entry(hash A, |e| e.val % 100 == 11)`:
+     - portable scanner (generic_backend): match_tag(2) reports A's byte and -- the documented
+       false positive -- B's byte; the closure rejects A and accepts B.  B is removed and the
+       VacantEntry re-inserts an element with B's id under the hash of A: control byte 2 instead
+       of 3.  The table is no longer well-formed for the hash (hash_wf_check = false), and the next
+       lawful lookup `find(hash B, id == B)` answers None although B is stored: the reference
+       rejects that output.
+     - SSE2 scanner: no false positive, the same call finds nothing.
+   With a closure that only accepts elements of the queried hash (top_pre) this cannot happen. *)
+Definition key_a : Z := 2 * 2 ^ 57.
+Definition key_b : Z := 3 * 2 ^ 57 + 1.
+Definition unlawful_ops : list tbl_op :=
+  [TWithCapacity 3; TInsertUnique key_a 0 10; TInsertUnique key_b 0 11;
+   TRemoveReinsert key_a (PValMod 100 11) 7 11].
+
+Example remove_reinsert_unlawful_generic :
+  match trun generic_backend id_hash (new_table generic_backend kv) (unlawful_ops ++ [TFind key_b (PId key_b)]) with
+  | Ok (os, t) =>
+      os = [TOutUnit; TOutUnit; TOutUnit; TOutElem (mkKV key_b 0 11); TOutNone] /\
+      occupants kv t = [mkKV key_a 0 10; mkKV key_b 7 11] /\
+      firstn 2 (ctrl t) = [2; 2]%Z /\
+      hash_wf_check generic_backend kv (fun e => id_hash (k_id e)) t = false /\
+      tspec_accepts id_hash (occupants kv t) (TFind key_b (PId key_b)) TOutNone (occupants kv t) = false
+  | Fail _ => False
+  end.
+Proof. vm_compute. repeat split. Qed.
+
+Example remove_reinsert_unlawful_sse2 :
+  match trun sse2_backend id_hash (new_table sse2_backend kv) unlawful_ops with
+  | Ok (os, t) => os = [TOutUnit; TOutUnit; TOutUnit; TOutNone] /\
+                  hash_wf_check sse2_backend kv (fun e => id_hash (k_id e)) t = true
+  | Fail _ => False
+  end.
+Proof. vm_compute. repeat split. Qed.
+
+(* FINDING 2 (statement): the acceptor recovers the pre-image of an element returned by
+   get_many_mut as `val - add` in u64 arithmetic; for a stored value outside u64 (here -1, which
+   no u64 field can hold) this is not the stored element and the faithful answer is rejected. *)
+Example get_many_mut_needs_u64 :
+  match trun generic_backend id_hash (new_table generic_backend kv)
+             [TWithCapacity 3; TInsertUnique 1 0 (-1); TGetManyMut [(1%Z, PId 1)] 5] with
+  | Ok (os, t) =>
+      os = [TOutUnit; TOutUnit; TOutOpts [Some (mkKV 1 0 4)]] /\ occupants kv t = [mkKV 1 0 4] /\
+      tspec_accepts id_hash [mkKV 1 0 (-1)] (TGetManyMut [(1%Z, PId 1)] 5) (TOutOpts [Some (mkKV 1 0 4)])
+                    (occupants kv t) = false
+  | Fail _ => False
+  end.
+Proof. vm_compute. repeat split. Qed.
+
+Print Assumptions remove_reinsert_unlawful_generic.
+Print Assumptions remove_reinsert_unlawful_sse2.
+Print Assumptions get_many_mut_needs_u64.
